@@ -761,7 +761,7 @@ theorem reachG_truth (gr : Gran) (o : Bool) (cfgs : List Cfg) {s : Sys} (h : Rea
     intro i hi _
     have : ((init gr o cfgs).inst i).cmd = .none := by unfold Sys.inst; simp [init]
     rw [this] at hi; cases hi
-  | thread t hh hr ht hk ih => exact truth_step _ t hh ht (reachG_one gr o cfgs hr) ih hk
+  | thread t hh hr ht _ hk ih => exact truth_step _ t hh ht (reachG_one gr o cfgs hr) ih hk
   | ext c hh hr hc ih => exact ext_truth _ c hh hc (reachG_one gr o cfgs hr) ih
   | clear _ ih => exact ih
 
